@@ -128,7 +128,10 @@ class C06Daemon(Episode):
             raw = m['raw'].encode('latin1') if isinstance(m['raw'], str) \
                 else m['raw']
             n0 = len(w.ctx.replies)
-            r = w.request('raw', None, raw=raw, meta={'i': i})
+            kw = {}
+            if m.get('cid'):
+                kw['cid'] = m['cid'].encode('latin1')
+            r = w.request('raw', None, raw=raw, meta={'i': i}, **kw)
             r.cmd = m.get('cmd', 'raw')
             eid, cast, is_obj = expected_id(raw)
             w.deliver(r)
@@ -561,6 +564,12 @@ class C06(Prop):
             meta['raw'] = raw.decode('latin1')
             if rng.random() < 0.3:
                 meta['gap'] = rng.choice([0.01, 0.2, 1.0])
+            if rng.random() < 0.12:
+                # the peer's identity frame is an opaque byte string (what
+                # libzmq generates is five arbitrary bytes)
+                meta['cid'] = rng.choice(['\x00\x80\xff\xfe\x01',
+                                          '\xff\xfe\x80-client',
+                                          '\x00k\x8bEg', '\xc3\x28'])
             msgs.append(meta)
         return {'cfg': cfg, 'ops': [], 'msgs': msgs, 'kind': 'daemon'}
 
